@@ -432,6 +432,38 @@ pub fn gen_message(src: &mut Src, o: &GenOpts) -> Message {
 
 /// Generated valid packet: message, wire encoding with offset map.
 pub fn gen_packet(src: &mut Src, o: &GenOpts) -> (Message, Encoded) {
+    if src.chance(10) {
+        // pointer ladders: 17..26 records sharing one or two names, each pointing at the deepest
+        // earlier occurrence: chains of exactly 1..16 pointers
+        let mut ctx = NameCtx::default();
+        let n1 = gen_name(src, &mut ctx);
+        let n1 = if n1.is_root() { Name::from_dotted("ladder.example") } else { n1 };
+        let mut n2 = Name(vec![gen_label(src)]);
+        n2.0.extend(n1.0.clone());
+        let n2 = fit(n2);
+        let qr = o.response != Some(false);
+        let k = src.range(17, 26);
+        let mut m = Message { id: src.u16(), flags: if qr { 0x8400 } else { 0x0100 }, qd: vec![Question { name: n1.clone(), qtype: 1, qclass: 1 }], ..Default::default() };
+        for i in 0..k {
+            let owner = if src.chance(60) { n2.clone() } else { n1.clone() };
+            let r = match src.below(4) {
+                0 => Record { owner, rtype: T_NS, class: 1, ttl: i as u32, rdata: Rdata::Name1(n1.clone()) },
+                1 => Record { owner, rtype: T_MX, class: 1, ttl: i as u32, rdata: Rdata::Mx(1, n1.clone()) },
+                _ => Record { owner, rtype: T_A, class: 1, ttl: i as u32, rdata: Rdata::A([1, 1, 1, i as u8]) },
+            };
+            if qr && src.chance(170) {
+                m.an.push(r);
+            } else {
+                m.ar.push(r);
+            }
+        }
+        if o.opt != OptMode::Never && src.chance(100) {
+            let at = src.below(m.ar.len() + 1);
+            m.ar.insert(at, gen_opt(src));
+        }
+        let e = enc::encode(&m, Layout::Deepest);
+        return (m, e);
+    }
     let m = gen_message(src, o);
     let literal = src.chance(40);
     let e = if literal { enc::encode(&m, Layout::Literal) } else { enc::encode(&m, Layout::Random(src)) };
